@@ -381,4 +381,13 @@ def no_class_state(repo: Repo) -> RuleRun:
 
 no_class_state.rule_id = "C19.NO-CLASS-STATE"
 
-RULES = [grid_roles, slice_roles, partition, merged_roles, assemble_walk, backport_local, delete_survives, tier_order, no_class_state]
+def addressable(repo: Repo) -> RuleRun:
+    """'For round shapes the core and shell lists partition the operations': every shape class can be asked for its grid, core, shell and operations - the members read only attributes that the constructors really run for that class create."""
+    from ..initchain import init_chain_rule
+
+    return init_chain_rule(repo, PROP, "C19.ADDRESSABLE", "construct.shape.Shape", ("grid", "core", "shell", "operations"), floor=12)
+
+
+addressable.rule_id = "C19.ADDRESSABLE"
+
+RULES = [grid_roles, slice_roles, partition, merged_roles, assemble_walk, backport_local, delete_survives, tier_order, no_class_state, addressable]
